@@ -5,7 +5,7 @@ use crate::request_reply::{Replier, Requestor};
 use crate::traits::KeepAliveStream;
 use futures::Future;
 use selium_std::errors::QuicError;
-use selium_std::errors::Result;
+use selium_std::errors::{Result, SeliumError};
 use selium_std::traits::codec::{MessageDecoder, MessageEncoder};
 use std::fmt::Debug;
 
@@ -123,8 +123,14 @@ where
                     logging::keep_alive::unrecoverable_error(&err);
                     return Err(err);
                 }
-                _ => self.try_reconnect(&mut attempts).await?,
+                // The server refused the stream that was just (re)opened, e.g. because the
+                // previous binding has not been released yet: this is still the same outage.
+                Err(SeliumError::OpenStream(..)) => (),
+                // An established stream was lost: a new outage, which gets the full budget.
+                _ => attempts = self.backoff_strategy.clone().into_iter(),
             };
+
+            self.try_reconnect(&mut attempts).await?;
         }
     }
 }
